@@ -93,6 +93,13 @@ def run(P, C):
         if r is None or t is None or not lidx or not ridx or len(lidx) != len(ridx) or r[0] not in members:
             continue
         il, ir = local_id(lidx[0]), local_id(ridx[0])
+        direct = None
+        if il is not None and ir is None:
+            # the source index written out at the use: member[permutation[i]]
+            pb, pidx_ = peel(ridx[0])
+            if local_id(pb) == f.params[0]["id"] and f.nodes[f.strip(pb)]["decl"]["kind"] == "ParmVar" and len(pidx_) == 1:
+                direct = local_id(pidx_[0])
+                ir = ("direct", direct)
         if il is None or ir is None:
             continue
         sub = tuple(f.nodes[x].get("cv") for x in lidx[1:])
@@ -150,10 +157,27 @@ def run(P, C):
                         vs = [f.nodes[y]["decl"].get("id") for y in f.walk(e) if f.k(y) == "DeclRefExpr" and f.nodes[y]["decl"].get("kind") == "Var"]
                         if len(vs) == 1 and vs[0] in iters:
                             jdef[d["id"]] = vs[0]          # the entry itself, through the iterator
+    def full_axis_loop(node, var):
+        """node sits in a loop `for (var = 0; var < ndim; var++)` (any spelling of the increment)"""
+        for a_ in f.ancestors(node):
+            if f.k(a_) != "ForStmt":
+                continue
+            n_ = f.nodes[a_]
+            ini, cond, inc = (f.render(n_[k]).replace(" ", "").replace("this->", "") if n_.get(k, -1) >= 0 else "" for k in ("init", "cond", "inc"))
+            ids = {f.nodes[x]["decl"].get("id") for x in f.walk(n_["cond"]) if f.k(x) == "DeclRefExpr"} if n_.get("cond", -1) >= 0 else set()
+            dids = {d.get("id") for d in f.nodes[n_["init"]].get("decls", [])} if n_.get("init", -1) >= 0 and f.k(n_["init"]) == "DeclStmt" else \
+                {f.nodes[x]["decl"].get("id") for x in (f.walk(n_["init"]) if n_.get("init", -1) >= 0 else []) if f.k(x) == "DeclRefExpr"}
+            if var in ids and var in dids:
+                v = f.var_name(var)
+                return ini.strip("()").replace("uint32_t", "").replace("size_t", "").replace("unsigned", "").replace("int", "").endswith("%s=0" % v) and \
+                    cond in ("(%s<ndim)" % v, "(ndim>%s)" % v, "(%s!=ndim)" % v) and inc in ("(%s++)" % v, "(++%s)" % v, "(%s+=1)" % v)
+        return False
     li = set(g["il"] for g in gathers)
     ri = set(g["ir"] for g in gathers)
+    one_loop = len(li) == 1 and len(ri) == 1
     for g in gathers:
-        ok = len(li) == 1 and len(ri) == 1 and jdef.get(g["ir"]) == g["il"] and g["sub"] == g["rsub"]
+        src = g["ir"][1] if isinstance(g["ir"], tuple) else jdef.get(g["ir"])
+        ok = (one_loop or full_axis_loop(g["node"], g["il"])) and src == g["il"] and g["sub"] == g["rsub"]
         C.ob("CL-5", "permuteDimensions", "gather:%s%s" % (g["member"], "".join("[%s]" % x for x in g["sub"])), ok, f.loc(g["node"]),
              "%s: destination index is the loop variable, source index is permutation[loop variable], same sub-index on both sides"
              % f.render(g["node"]).replace("this->", ""))
